@@ -20,8 +20,38 @@ from vlib import ToolError, log
 def mc_cfg(c):
     consts = {"Variant": "{}", "MaxPackets": c["packets"], "Delay": c["delay"], "NC": c["nc"], "NS": c["ns"],
               "Budget": c["budget"], "ActionAlphabetId": '"%s"' % c["alphabet"], "MaxEvents": c["events"],
-              "Cont": "TRUE" if c.get("cont", True) else "FALSE"}
-    return vlib.tlc_cfg("Spec", consts, c["invs"] + ["Inv_Log"], "PROPERTY TimeMonotone")
+              "Cont": "TRUE" if c.get("cont", True) else "FALSE",
+              "KeepHist": "TRUE" if c.get("hist") else "FALSE"}
+    return vlib.tlc_cfg("Spec", consts, c["invs"] + ["Inv_Log"] + (["Emit"] if c.get("hist") else []),
+                        "PROPERTY TimeMonotone")
+
+
+ADDRESSED = {"PaddingSent", "TimerBegin", "TimerEnd"}
+
+
+def scripts_to_scenarios(raw, c, seen, out):
+    """behaviours printed by Simulator!Emit -> scenarios for sim_driver --scripts: per machine the
+    answers to the events the framework delivers to it (addressed events go to their machine only)"""
+    n = 0
+    for line in raw:
+        b = json.loads(line)
+        sides = {1: [[] for _ in range(c["nc"])], 2: [[] for _ in range(c["ns"])]}
+        for h in b["hist"]:
+            for i, l in enumerate(sides[h["s"]]):
+                if h["e"] in ADDRESSED and h["m"] != i:
+                    continue
+                l.append(h["f"][i])
+        for side in sides.values():
+            for l in side:
+                while l and l[-1]["kind"] == "None":
+                    l.pop()
+        sc = dict(trace=b["trace"], delay=c["delay"], cont=c.get("cont", True), mc=sides[1], ms=sides[2])
+        key = json.dumps(sc, sort_keys=True)
+        n += 1
+        if key not in seen:
+            seen.add(key)
+            out.write(json.dumps(sc) + "\n")
+    return n
 
 
 def M(packets, delay, nc, ns, budget, alphabet, events, invs, cont=True):
@@ -37,28 +67,38 @@ PLANS = {
                       drv=["--no-machines", "--scenarios", 3000, "--max-packets", 200, "--burst", 300000])),
     "C15": dict(
         quick=dict(mc=[M(2, 1, 1, 1, 2, "block", 16, ["Inv_C15"], cont=False), M(1, 0, 1, 0, 2, "all", 12, ["Inv_C15"])],
+                   gen=[M(2, 1, 1, 1, 1, "block", 16, ["Inv_C15"], cont=False)],
                    drv=["--scenarios", 200, "--directed", 2]),
         thorough=dict(mc=[M(2, 1, 1, 1, 2, "all", 18, ["Inv_C15"], cont=False), M(2, 0, 1, 1, 3, "block", 16, ["Inv_C15"])],
+                      gen=[M(2, 1, 1, 1, 1, "block", 16, ["Inv_C15"], cont=False), M(1, 0, 1, 1, 2, "all", 12, ["Inv_C15"])],
                       drv=["--scenarios", 2500, "--directed", 1], mech=300)),
     "C16": dict(
         quick=dict(mc=[M(1, 1, 1, 0, 3, "block", 14, ["Inv_C16"]), M(2, 0, 1, 0, 2, "block", 14, ["Inv_C16"])],
+                   gen=[M(1, 1, 1, 0, 2, "block", 14, ["Inv_C16"])],
                    drv=["--scenarios", 200, "--directed", 2]),
         thorough=dict(mc=[M(1, 1, 2, 0, 3, "block", 14, ["Inv_C16"]), M(2, 1, 1, 1, 3, "block", 16, ["Inv_C16"])],
+                      gen=[M(1, 1, 1, 0, 2, "block", 14, ["Inv_C16"]), M(1, 0, 2, 0, 2, "block", 14, ["Inv_C16"])],
                       drv=["--scenarios", 2500, "--directed", 1], mech=300)),
     "C17": dict(
         quick=dict(mc=[M(1, 0, 1, 0, 3, "action", 14, ["Inv_C17"]), M(1, 1, 1, 1, 2, "action", 14, ["Inv_C17"])],
+                   gen=[M(1, 1, 1, 0, 2, "action", 14, ["Inv_C17"])],
                    drv=["--scenarios", 200, "--directed", 2]),
         thorough=dict(mc=[M(1, 0, 2, 0, 3, "action", 14, ["Inv_C17"]), M(2, 1, 1, 1, 3, "action", 16, ["Inv_C17"])],
+                      gen=[M(1, 1, 1, 0, 2, "action", 14, ["Inv_C17"]), M(1, 1, 2, 0, 2, "action", 14, ["Inv_C17"])],
                       drv=["--scenarios", 2500, "--directed", 1], mech=300)),
     "C18": dict(
         quick=dict(mc=[M(1, 0, 1, 0, 4, "timer", 16, ["Inv_C18"]), M(1, 1, 1, 1, 3, "timer", 14, ["Inv_C18"])],
+                   gen=[M(1, 0, 1, 0, 3, "timer", 16, ["Inv_C18"])],
                    drv=["--scenarios", 200, "--directed", 2]),
         thorough=dict(mc=[M(1, 0, 2, 0, 4, "timer", 16, ["Inv_C18"]), M(2, 1, 1, 1, 4, "timer", 18, ["Inv_C18"])],
+                      gen=[M(1, 0, 1, 0, 3, "timer", 16, ["Inv_C18"]), M(1, 0, 2, 0, 2, "timer", 16, ["Inv_C18"])],
                       drv=["--scenarios", 2500, "--directed", 1], mech=300)),
     "C19": dict(
         quick=dict(mc=[M(1, 1, 1, 1, 2, "all", 12, ["Inv_C19"]), M(2, 1, 1, 0, 2, "block", 12, ["Inv_C19"])],
+                   gen=[M(1, 1, 1, 1, 1, "all", 12, ["Inv_C19"]), M(1, 1, 1, 1, 2, "action", 12, ["Inv_C19"])],
                    drv=["--scenarios", 200, "--directed", 2], mech=30),
         thorough=dict(mc=[M(2, 1, 1, 1, 2, "all", 18, ["Inv_C19", "Inv_C15", "Inv_C16", "Inv_C17", "Inv_C18"])],
+                      gen=[M(1, 1, 1, 1, 2, "all", 12, ["Inv_C19"])],
                       drv=["--scenarios", 2500, "--directed", 1], mech=300)),
 }
 
@@ -74,7 +114,7 @@ NONTRIVIAL = {
 ASSUME = [
     "no integration delays; traces and delays are whole micro-seconds (runs with sub-micro-second times are skipped and counted)",
     "SimMech computes when an aggregate base delay is pushed and its amount (delay.rs heuristics) and the bottleneck's extra delay (one-second window against the packets-per-second limit, parse_trace's default limit); in model checking the bottleneck is out of reach of the bounds (pps = 0); same-time, same-priority order is left nondeterministic",
-    "the frameworks inside the simulator are an oracle in model checking (<= Budget actions from a small alphabet)",
+    "the frameworks inside the simulator are an oracle in model checking (<= Budget actions from a small alphabet); GEN turns every behaviour's oracle answers into chain machines (one state per delivered event, no limits) and runs them on the real simulator",
     "trace validation reads the add-only hook records of cargo feature `verif` (events with private flags, actions returned, timer firings, exit reason)",
 ]
 
@@ -96,6 +136,41 @@ def check_sim(prop, tier, seed):
         states += r["distinct"]
         trans += r["states"]
         mc_runs.append(dict(c, distinct=r["distinct"], generated=r["states"], wall_s=round(r["wall"], 1)))
+    # GEN: behaviours of the model (the oracle's answers as a history variable) become scenarios of the
+    # real simulator: machines that answer the j-th event delivered to them as the oracle did
+    gen = None
+    if p.get("gen"):
+        sfile = os.path.join(wd, "scripts.ndjson")
+        seen, nbeh = set(), 0
+        with open(sfile, "w") as out:
+            for i, c in enumerate(p["gen"]):
+                c = dict(c, hist=True)
+                r = vlib.run_tlc("Simulator", mc_cfg(c), wd, "gen%d" % i, workers=10 if tier == "quick" else 14, timeout=2400)
+                if r["error"] or r["violated"] or r["distinct"] == 0:
+                    raise ToolError("behaviour generation from Simulator failed (%s): %s" % (r["violated"] or r["error"], r["out"][-3000:]))
+                k = scripts_to_scenarios(vlib.tlc_strings(r["out"], "SCRIPT|"), c, seen, out)
+                nbeh += k
+                states += r["distinct"]
+                trans += r["states"]
+                mc_runs.append(dict(c, distinct=r["distinct"], generated=r["states"], wall_s=round(r["wall"], 1), behaviours=k))
+                log("[%s] GEN Simulator packets<=%d delay=%d machines=%d/%d budget=%d alphabet=%s: %d distinct states, %d behaviours, %.1fs" % (
+                    prop, c["packets"], c["delay"], c["nc"], c["ns"], c["budget"], c["alphabet"], r["distinct"], k, r["wall"]))
+        gtrace, gmech = os.path.join(wd, "gen.ndjson"), os.path.join(wd, "genmech.ndjson")
+        prg = vlib.run_bin("sim_driver", ["--seed", seed, "--scenarios", 0, "--no-scaled", "--scripts", sfile,
+                                          "--out", gtrace, "--mech-out", gmech], timeout=3000)
+        if prg.returncode != 0:
+            raise ToolError("sim_driver --scripts failed: %s" % prg.stdout[-2000:])
+        gs = json.loads(prg.stdout.strip().splitlines()[-1])
+        cfg0 = vlib.tlc_cfg("TSpec", {}).replace("CONSTANTS\n", "")
+        gtv = vlib.trace_validate("SimTrace", cfg0, gtrace, wd, "tvgen", shards=12, timeout=2400)
+        gmv = vlib.trace_validate("SimMechTrace", vlib.tlc_cfg("TSpec", {"Variant": "{}"}), gmech, wd, "tvgenmech",
+                                  shards=12, timeout=2400)
+        if gtv["incomplete"] or gmv["incomplete"]:
+            raise ToolError("validation of the generated scenarios did not finish: %s %s" % (gtv["incomplete"], gmv["incomplete"]))
+        gen = dict(behaviours=nbeh, scenarios=gs["scripted"], lines=gtv["lines"], mechanism_lines=gmv["lines"],
+                   mechanism_divergences=len(gmv["diverged"]), first_divergence=(gmv["diverged"] or [None])[0])
+        log("[%s] GEN: %d behaviours -> %d distinct scenarios run on the real simulator; %d lines folded through SimObs in %.1fs; mechanism: %d lines, %d divergences (diagnostic)" % (
+            prop, nbeh, gs["scripted"], gtv["lines"], gtv["wall"], gmv["lines"], len(gmv["diverged"])))
     trace = os.path.join(wd, "sim.ndjson")
     pr = vlib.run_bin("sim_driver", ["--seed", seed, "--out", trace] + p["drv"], timeout=3000)
     if pr.returncode != 0:
@@ -106,6 +181,9 @@ def check_sim(prop, tier, seed):
     if tv["incomplete"]:
         raise ToolError("trace validation did not finish: %s" % tv["incomplete"])
     total, nt = fwcheck.scan_trace_pred(trace, NONTRIVIAL[prop])
+    if gen:
+        gt, gnt = fwcheck.scan_trace_pred(gtrace, NONTRIVIAL[prop])
+        total, nt = total + gt, nt + gnt
     log("[%s] sim_driver seed=%d: %s; %d lines folded through SimObs in %.1fs; %d scenarios, %d non-trivial" % (
         prop, seed, {k: s[k] for k in ("written", "events", "actions", "panics", "sub_microsecond_skipped")},
         tv["lines"], tv["wall"], total, nt))
@@ -131,7 +209,10 @@ def check_sim(prop, tier, seed):
     known_sigs = {k["signature"] for k in known}
     seen_known = set()
     viols = []
-    for v in tv["verdicts"]:
+    all_verdicts = [dict(v, src="drv") for v in tv["verdicts"]]
+    if gen:
+        all_verdicts += [dict(v, src="gen") for v in gtv["verdicts"]]
+    for v in all_verdicts:
         if v["name"] != prop and not (prop == "C19" and v["clause"] == "Panic"):
             continue
         sig = "%s:%s" % (v["clause"], v["sig"])
@@ -154,13 +235,14 @@ def check_sim(prop, tier, seed):
                     evaluations=max(total, 1), distinct_nontrivial=nt,
                     rule="scenario = random time-sorted trace x delay x 0-4 random/templated machines per side x fractions x stop settings, run 6-8 times (hooks, re-run, three filters, bounded, sim()); non-trivial = exercises the property's events",
                     samples=sample or ["(none)"], exhaustive=False, model_checking_runs=mc_runs, driver_summary=s,
-                    mechanism_conformance=mech)
+                    mechanism_conformance=mech, generated_from_model=gen)
     vlib.write_evidence(prop, tier, seed, "model_checking", coverage, time.time() - t0, len(viols), ASSUME)
     if viols:
-        v = sorted(viols, key=lambda x: (x["id"], x["l"]))[0]
+        v = sorted(viols, key=lambda x: (x["src"], x["id"], x["l"]))[0]
+        vtrace = trace if v["src"] == "drv" else gtrace
         path = vlib.write_replay(prop, dict(property=prop, scenario=v["id"], clause=v["clause"], signature=v["sig"],
-                                            seed=seed, driver_args=p["drv"],
-                                            actual=[ln for ln in fwcheck.scenario_lines(trace, v["id"])
+                                            seed=seed, source=v["src"], driver_args=p["drv"],
+                                            actual=[ln for ln in fwcheck.scenario_lines(vtrace, v["id"])
                                                     if ln.get("k") in ("sim", "ev", "act", "fired", "exit")][:400]))
         log("[%s] %d failing clause instance(s); first: scenario %d clause %s (%s)" % (
             prop, len(viols), v["id"], v["clause"], v["sig"]))
